@@ -93,6 +93,9 @@ func run(c *mon.Ctx) {
 // ---- monitors 1 and 2 ---------------------------------------------------------------------------
 
 func frameAndMessage(c *mon.Ctx, cs gen.Case, id string) {
+	if c.Saturated() {
+		return // the verdict is decided; see mon.Saturated
+	}
 	a := cs.Frame
 	v := primitive.ProtocolVersion(a.Version)
 	hl := a.Version.HeaderLen()
